@@ -62,14 +62,21 @@ def run(tier, replay=None):
             if len(rs) != len(hists) + len(parts[k]):
                 raise ToolError("harness result count mismatch")
             for h, r in zip(hists, rs[:len(hists)]):
-                if r["verdict"] != "ok":
+                if r["verdict"] == "violation":       # the code under test panicked while the honest history was produced
+                    hist_viol[h.get("h")] = (h, r)
+                elif r["verdict"] != "ok":
                     raise ToolError(f"history {h.get('h')} could not be produced by the real runtime: {r.get('detail')}")
             return rs[len(hists):]
 
+        hist_viol = {}
         with concurrent.futures.ThreadPoolExecutor(max_workers=nsh) as ex:
             results = [r for rs in ex.map(shard, range(nsh)) for r in rs]
+        for hid, (h, r) in sorted(hist_viol.items()):
+            ck.violation(f"{r['kind']}", r.get("detail", ""), {"hists": [h], "cases": []})
         for c, r in zip(cases, results):
             if c.get("kind") == "long":
+                continue
+            if c.get("scn", {}).get("h") in hist_viol:
                 continue
             total += 1
             if r["verdict"] == "violation":
